@@ -1,6 +1,7 @@
 //! Logic related to the Carrier, the component in charge or sending/requesting transaction data from/to `bitcoind`.
 
 use std::collections::HashMap;
+use std::time::Duration;
 #[cfg(not(feature = "verif"))]
 use std::sync::{Arc, Condvar, Mutex};
 #[cfg(feature = "verif")]
@@ -16,6 +17,9 @@ use bitcoincore_rpc::{
     jsonrpc::error::Error::Rpc as RpcError, jsonrpc::error::Error::Transport as TransportError,
     Client as BitcoindClient, Error::JsonRpc as JsonRpcError, RpcApi,
 };
+
+/// How long a request that found bitcoind unreachable waits to be told that it is reachable again before retrying by itself.
+const RETRY_DELTA: Duration = Duration::from_secs(10);
 
 /// Component in charge of the interaction with Bitcoind by sending / querying transactions via RPC.
 #[derive(Debug)]
@@ -65,11 +69,19 @@ impl Carrier {
     }
 
     /// Hangs the process until bitcoind is reachable. If bitcoind is already reachable it just passes trough.
+    ///
+    /// `bitcoind_reachable` is set back by the `ChainMonitor` once it manages to poll `bitcoind` again. However, the `ChainMonitor`
+    /// may be the one waiting here (if the connection is lost while processing a block), or it may be waiting for a lock held by
+    /// whoever is waiting here, so the wait is bounded: after [RETRY_DELTA] the caller gets to retry its request no matter what.
     fn hang_until_bitcoind_reachable(&self) {
         let (lock, notifier) = &*self.bitcoind_reachable;
         let mut reachable = lock.lock().unwrap();
         while !*reachable {
-            reachable = notifier.wait(reachable).unwrap();
+            let (guard, result) = notifier.wait_timeout(reachable, RETRY_DELTA).unwrap();
+            reachable = guard;
+            if result.timed_out() {
+                break;
+            }
         }
     }
 
@@ -79,15 +91,36 @@ impl Carrier {
         *lock.lock().unwrap() = false;
     }
 
+    /// Flags bitcoind as reachable (if it was not), given it has just replied to a request.
+    fn flag_bitcoind_reachable(&self) {
+        let (lock, notifier) = &*self.bitcoind_reachable;
+        let mut reachable = lock.lock().unwrap();
+        if !*reachable {
+            *reachable = true;
+            notifier.notify_all();
+        }
+    }
+
     /// Sends a [Transaction] to the Bitcoin network.
     ///
     /// Returns a [ConfirmationStatus] indicating whether the transaction was accepted by the node or not.
     pub(crate) fn send_transaction(&mut self, tx: &Transaction) -> ConfirmationStatus {
+        loop {
+            if let Some(receipt) = self.try_send_transaction(tx) {
+                return receipt;
+            }
+        }
+    }
+
+    /// Tries to send a [Transaction] to the Bitcoin network once bitcoind is (or may be) reachable.
+    ///
+    /// Returns [None] if the connection with bitcoind is lost, meaning the request has to be retried.
+    fn try_send_transaction(&mut self, tx: &Transaction) -> Option<ConfirmationStatus> {
         self.hang_until_bitcoind_reachable();
 
         if let Some(receipt) = self.issued_receipts.get(&tx.compute_txid()) {
             log::info!("Transaction already sent: {}", tx.compute_txid());
-            return *receipt;
+            return Some(*receipt);
         }
 
         log::info!("Pushing transaction to the network: {}", tx.compute_txid());
@@ -135,7 +168,7 @@ impl Carrier {
                 // Connection refused, bitcoind is down.
                 log::error!("Connection lost with bitcoind, retrying request when possible");
                 self.flag_bitcoind_unreachable();
-                self.send_transaction(tx)
+                return None;
             }
             Err(e) => {
                 // TODO: This may need finer catching.
@@ -144,9 +177,10 @@ impl Carrier {
             }
         };
 
+        self.flag_bitcoind_reachable();
         self.issued_receipts.insert(tx.compute_txid(), receipt);
 
-        receipt
+        Some(receipt)
     }
 
     /// Checks whether a given transaction can be found in the mempool.
@@ -155,9 +189,20 @@ impl Carrier {
     /// If `txindex` is disabled (default), it will only pull data from the mempool. Otherwise, it will also pull data from the transaction
     /// index. Hence, we need to check whether the returned struct has any of the block related datum set (such as `blockhash`).
     pub(crate) fn in_mempool(&self, txid: &Txid) -> bool {
+        loop {
+            if let Some(in_mempool) = self.try_in_mempool(txid) {
+                return in_mempool;
+            }
+        }
+    }
+
+    /// Checks whether a given transaction can be found in the mempool once bitcoind is (or may be) reachable.
+    ///
+    /// Returns [None] if the connection with bitcoind is lost, meaning the request has to be retried.
+    fn try_in_mempool(&self, txid: &Txid) -> Option<bool> {
         self.hang_until_bitcoind_reachable();
 
-        match self.bitcoin_cli.get_raw_transaction_info(txid, None) {
+        let in_mempool = match self.bitcoin_cli.get_raw_transaction_info(txid, None) {
             Ok(tx) => tx.blockhash.is_none(),
             Err(JsonRpcError(RpcError(rpcerr))) => match rpcerr.code {
                 rpc_errors::RPC_INVALID_ADDRESS_OR_KEY => {
@@ -174,7 +219,7 @@ impl Carrier {
                 // Connection refused, bitcoind is down.
                 log::error!("Connection lost with bitcoind, retrying request when possible");
                 self.flag_bitcoind_unreachable();
-                self.in_mempool(txid)
+                return None;
             }
             // TODO: This may need finer catching.
             Err(e) => {
@@ -182,7 +227,10 @@ impl Carrier {
                 log::error!("Unexpected JSONRPCError when calling getrawtransaction: {e}");
                 false
             }
-        }
+        };
+
+        self.flag_bitcoind_reachable();
+        Some(in_mempool)
     }
 }
 
